@@ -3573,6 +3573,13 @@ class QuicConnection:
             )
         )
         previous_send_highest = stream.sender.highest_offset
+
+        # Do not take a frame from the sender if it cannot be written: a frame
+        # carrying only the FIN bit is returned whatever the size limit is,
+        # and it would be lost.
+        if builder.remaining_flight_space < frame_overhead:
+            return 0
+
         frame = stream.sender.get_frame(
             builder.remaining_flight_space - frame_overhead, max_offset
         )
